@@ -95,36 +95,69 @@ SPEC_HEAP = ["llen", "lel", "dhas", "dval", "dlen"]  # what spec functions recei
 
 
 class Heap:
-    def __init__(self, arrs, alloc):
+    """SSA heap.  Reads go through `sel`, which resolves select-over-store chains in the engine (syntactic equality of
+    the reference, or a cached `must` proof of disequality) so that the solver sees clean base-array terms that match
+    the triggers of the well-formedness axioms, invariants and preconditions."""
+    distinct_hook = None     # set by the engine: (st, r1, r2) -> bool (proved distinct)
+    below_hook = None        # set by the engine: (st, r, bound) -> bool (proved 0 <= r < bound)
+    merge_meta = {}          # id(array term) -> (term, previous array term, bound): "agrees with `previous` below `bound`"
+
+    def __init__(self, arrs, alloc, st=None):
         self.a = dict(arrs)
         self.alloc = alloc
+        self.st = st
 
     @staticmethod
     def initial(tag="0"):
         return Heap({n: z3.Const("%s%s" % (n, tag), HEAP_SORTS[n]) for n in HEAP_NAMES}, z3.Int("alloc" + tag))
 
     def copy(self):
-        return Heap(self.a, self.alloc)
+        return Heap(self.a, self.alloc, self.st)
+
+    def sel(self, name, r):
+        a = self.a[name]
+        rs = None
+        while True:
+            if z3.is_app(a) and a.decl().kind() == z3.Z3_OP_STORE:
+                base, r2, v = a.arg(0), a.arg(1), a.arg(2)
+                if rs is None:
+                    rs = z3.simplify(r)
+                r2s = z3.simplify(r2)
+                if rs.eq(r2s):
+                    return v
+                if Heap.distinct_hook is not None and self.st is not None and Heap.distinct_hook(self.st, rs, r2s):
+                    a = base
+                    continue
+                break
+            m = Heap.merge_meta.get(a.get_id())
+            if m is not None and m[0].eq(a) and Heap.below_hook is not None and self.st is not None:
+                if rs is None:
+                    rs = z3.simplify(r)
+                if Heap.below_hook(self.st, rs, m[2]):
+                    a = m[1]
+                    continue
+            break
+        return a[r]
 
     # -- lists
     def llen(self, r):
-        return self.a["llen"][r]
+        return self.sel("llen", r)
 
     def lget(self, r, i):
-        return self.a["lel"][r][i]
+        return self.sel("lel", r)[i]
 
     # -- dicts / sets / object attributes
     def dhas(self, r, k):
-        return self.a["dhas"][r][k]
+        return self.sel("dhas", r)[k]
 
     def dget(self, r, k):
-        return self.a["dval"][r][k]
+        return self.sel("dval", r)[k]
 
     def dlen(self, r):
-        return self.a["dlen"][r]
+        return self.sel("dlen", r)
 
     def dkey(self, r, i):
-        return self.a["dkey"][r][i]
+        return self.sel("dkey", r)[i]
 
     def spec_args(self):
         return [self.a[n] for n in SPEC_HEAP]
@@ -159,29 +192,39 @@ def _mentions(t, v):
 
 
 def heap_wf_axioms(h):
-    """well-formedness of a heap version (quantified over all objects), used for the entry heap"""
+    """well-formedness of the objects allocated in a heap version (all r with 0 <= r < alloc)"""
     r = z3.Int("r!")
     i = z3.Int("i!")
     k = z3.Const("k!", V)
+    al = z3.And(r >= 0, r < h.alloc)
     ax = []
-    ax.append(forall([r], h.llen(r) >= 0, [h.llen(r)]))
-    ax.append(forall([r], h.dlen(r) >= 0, [h.dlen(r)]))
+    ax.append(forall([r], z3.Implies(al, h.llen(r) >= 0), [h.llen(r)]))
+    ax.append(forall([r], z3.Implies(al, h.dlen(r) >= 0), [h.dlen(r)]))
     # enumeration <-> membership (bijection between [0,dlen) and the key set)
-    ax.append(forall([r, k], z3.Implies(h.dhas(r, k),
-                                           z3.And(h.a["didx"][r][k] >= 0, h.a["didx"][r][k] < h.dlen(r),
-                                                  h.dkey(r, h.a["didx"][r][k]) == k)),
-                        [h.dhas(r, k)]))
-    ax.append(forall([r, i], z3.Implies(z3.And(i >= 0, i < h.dlen(r)),
-                                           z3.And(h.dhas(r, h.dkey(r, i)), h.a["didx"][r][h.dkey(r, i)] == i)),
-                        [h.dkey(r, i)]))
-    # closed: every reference stored in the heap is allocated
-    ax.append(forall([r, i], z3.Implies(z3.And(i >= 0, i < h.llen(r), is_ref(h.lget(r, i))),
-                                           V.rv(h.lget(r, i)) < h.alloc), [h.lget(r, i)]))
-    ax.append(forall([r, k], z3.Implies(z3.And(h.dhas(r, k), is_ref(h.dget(r, k))),
-                                           V.rv(h.dget(r, k)) < h.alloc), [h.dget(r, k)]))
-    ax.append(forall([r, k], z3.Implies(z3.And(h.dhas(r, k), is_ref(k)), V.rv(k) < h.alloc),
-                        [h.dhas(r, k)]))
+    ax.append(forall([r, k], z3.Implies(z3.And(al, h.dhas(r, k)),
+                                        z3.And(h.a["didx"][r][k] >= 0, h.a["didx"][r][k] < h.dlen(r),
+                                               h.dkey(r, h.a["didx"][r][k]) == k)),
+                     [h.dhas(r, k)]))
+    ax.append(forall([r, i], z3.Implies(z3.And(al, i >= 0, i < h.dlen(r)),
+                                        z3.And(h.dhas(r, h.dkey(r, i)), h.a["didx"][r][h.dkey(r, i)] == i)),
+                     [h.dkey(r, i)]))
+    # closed: every reference stored in an allocated object is allocated
+    ax.append(forall([r, i], z3.Implies(z3.And(al, i >= 0, i < h.llen(r), is_ref(h.lget(r, i))),
+                                        V.rv(h.lget(r, i)) < h.alloc), [h.lget(r, i)]))
+    ax.append(forall([r, k], z3.Implies(z3.And(al, h.dhas(r, k), is_ref(h.dget(r, k))),
+                                        V.rv(h.dget(r, k)) < h.alloc), [h.dget(r, k)]))
+    ax.append(forall([r, k], z3.Implies(z3.And(al, h.dhas(r, k), is_ref(k)), V.rv(k) < h.alloc),
+                     [h.dhas(r, k)]))
     return ax
+
+
+def closed_at(h, r):
+    """every reference stored in object r (heap version h) is allocated"""
+    i = z3.Int("i!")
+    k = z3.Const("k!", V)
+    return [forall([i], z3.Implies(z3.And(i >= 0, i < h.llen(r), is_ref(h.lget(r, i))), V.rv(h.lget(r, i)) < h.alloc), [h.lget(r, i)]),
+            forall([k], z3.Implies(z3.And(h.dhas(r, k), is_ref(h.dget(r, k))), V.rv(h.dget(r, k)) < h.alloc), [h.dget(r, k)]),
+            forall([k], z3.Implies(z3.And(h.dhas(r, k), is_ref(k)), V.rv(k) < h.alloc), [h.dhas(r, k)])]
 
 
 def dict_wf_at(h, r):
@@ -206,9 +249,13 @@ class St:
         self.heap = heap
         self.pc = pc
         self.ghost = ghost or {}
+        if heap.st is None:
+            heap.st = self
 
     def copy(self):
-        return St(dict(self.env), self.heap.copy(), list(self.pc), dict(self.ghost))
+        h = self.heap.copy()
+        h.st = None
+        return St(dict(self.env), h, list(self.pc), dict(self.ghost))
 
     def assume(self, f):
         f = simp(f)
